@@ -157,3 +157,62 @@ class ListDecode:
         for j in range(1, n):
             ok = ok and f[j].g_from == f[j - 1].g_to
         return {"fields-back-to-back-from-header": ok, "position": result == f[n - 1].g_to}
+
+
+# =============================================================================================== Array.encode for ANY number of children
+# The children are a heap region of symbolic size (any element count, no case split): child k has the bytes g_enc[k] of
+# length g_len[k]; the encoding is the L header followed by the children's bytes at the offsets given by the prefix sums
+# of the lengths.
+KIDS = Region("children", AbsVar, g_enc=Bytes(), g_len=Int)
+
+
+def kids_ok(data):
+    return forall(0, len(data), lambda k: data[k].g_len == len(data[k].g_enc))
+
+
+def lens(data):
+    return field_seq(region_of(data[0]), "g_len")
+
+
+def children_at(result, h, data, upto):
+    """result[h + sum of the lengths before child k + j] == byte j of child k, for every child k < upto"""
+    return forall(0, upto, lambda k: forall(0, data[k].g_len, lambda j: result[h + prefix_sum(lens(data), k) + j] == data[k].g_enc[j]))
+
+
+def hlen(n):
+    return 4 if n > 0xFFFF else (3 if n > 0xFF else 2)
+
+
+@contract("secsgem.secs.variables.array:Array.encode", "C01", name="ArrayEncodeAny")
+class ArrayEncodeAny:
+    """O13 for every element count n (0 .. 2**24-1, beyond that ValueError): the result is the L header with the minimal
+    number of length bytes followed by the encodings of all children in order, nothing else."""
+
+    cases = None
+    uses = [ChildEncodeAbs]
+
+    def inputs():
+        return {"self": Obj(V.Array, data=RegionList(KIDS), count=Int)}
+
+    def requires(self):
+        return kids_ok(self.data)
+
+    def raises(self):
+        return {ValueError: len(self.data) > 0xFFFFFF}
+
+    def ensures(self, result):
+        n = len(self.data)
+        h = hlen(n)
+        return {"header": seq_eq_at(result, 0, e5.header_min(0, n)),
+                "length": len(result) == h + prefix_sum(lens(self.data), n),
+                "children-in-order": children_at(result, h, self.data, n)}
+
+    def inv(self, result, i):
+        n = len(self.data)
+        h = hlen(n)
+        return (seq_eq_at(result, 0, e5.header_min(0, n))
+                and len(result) == h + prefix_sum(lens(self.data), i)
+                and forall(0, i, lambda k: prefix_sum(lens(self.data), k) + self.data[k].g_len <= prefix_sum(lens(self.data), i) and prefix_sum(lens(self.data), k) >= 0)
+                and children_at(result, h, self.data, i))
+
+    loops = {1: Loop(a=inv)}
